@@ -179,6 +179,8 @@ def pexpr(e: Expr, lay: Layout) -> str:  # noqa: PLR0911, PLR0912
         return f"({pexpr(e[1], lay)}..{pexpr(e[2], lay)})"
     if k == "array":
         sep = "," if lay.style == "tight" else ", "
+        if len(e[1]) == 1:
+            return pexpr(e[1][0], lay) + ","  # a one-item array literal is written with a trailing comma
         return sep.join(pexpr(x, lay) for x in e[1])
     if k == "tstr":
         buf = []
